@@ -235,6 +235,9 @@ func c15Build(r *Run, state string) *c15Setup {
 		do(Act("disableAttester(K3) by A1", &cctptypes.MsgDisableAttester{From: AttMgr.Str, Attester: Keys[2].Hex}))
 		do(Act("enableAttester(\"04\") by A1", &cctptypes.MsgEnableAttester{From: AttMgr.Str, Attester: "04"})) // a key string that is a strict prefix of the real keys
 		do(Act("updateOwner(A5) by A0", &cctptypes.MsgUpdateOwner{From: Owner.Str, NewOwner: UserB.Str}))
+		// one key under two spellings, the prefixed one first: two registry entries
+		do(Act("enableAttester(0xK5) by A1", &cctptypes.MsgEnableAttester{From: AttMgr.Str, Attester: Keys[4].Spell(1)}))
+		do(Act("enableAttester(K5) by A1", &cctptypes.MsgEnableAttester{From: AttMgr.Str, Attester: Keys[4].Hex}))
 	case "send-paused":
 		do(Act("pauseSendingAndReceiving by A2", &cctptypes.MsgPauseSendingAndReceivingMessages{From: Pauser.Str}))
 	case "burn-paused":
@@ -287,6 +290,8 @@ func c15Build(r *Run, state string) *c15Setup {
 		Act("enableAttester(0xK1)", &cctptypes.MsgEnableAttester{From: AttMgr.Str, Attester: Keys[0].Spell(1)}),
 		Act("disableAttester(0xK1)", &cctptypes.MsgDisableAttester{From: AttMgr.Str, Attester: Keys[0].Spell(1)}),
 		Act("disableAttester(0xK2)", &cctptypes.MsgDisableAttester{From: AttMgr.Str, Attester: Keys[1].Spell(1)}),
+		Act("disableAttester(0xK5)", &cctptypes.MsgDisableAttester{From: AttMgr.Str, Attester: Keys[4].Spell(1)}),
+		Act("disableAttester(K5)", &cctptypes.MsgDisableAttester{From: AttMgr.Str, Attester: Keys[4].Hex}),
 		Act("disableAttester(K2)", &cctptypes.MsgDisableAttester{From: AttMgr.Str, Attester: Keys[1].Hex}),
 		Act("linkTokenPair(0,token0) duplicate", &cctptypes.MsgLinkTokenPair{From: TokenCtl.Str, RemoteDomain: DomEth, RemoteToken: RemoteToken0, LocalToken: "uatom"}),
 		Act("linkTokenPair(5, 31 bytes)", &cctptypes.MsgLinkTokenPair{From: TokenCtl.Str, RemoteDomain: 5, RemoteToken: distinct32(0xF0)[:31], LocalToken: "uusdc"}),
